@@ -76,7 +76,7 @@ func runScripted(early, readsStop, fail bool, timeout time.Duration, watchdog ti
 
 func concMain(args []string) {
 	o := hx.ParseOpts(args)
-	rep := hx.NewReport("runner: actions finishing at timeout/4 or 3*timeout, reading the stop signal or not, nil or error, on RunActionWithTimeout and the two context based runners (parent context alive / cancelled before the call / cancelled while the action runs, well before the deadline); " +
+	rep := hx.NewReport("runner: actions finishing at timeout/4 or 3*timeout, reading the stop signal or not, nil or error, on RunActionWithTimeout and the two context based runners (parent context alive / cancelled before the call / cancelled while the action runs, well before the deadline), RunActionWithParallelCheck (action first, check says no, caller cancels); " +
 		"race sweep: completion instants within +-2 ms of the deadline in 20 us (quick: 100 us) steps under 1..16 busy goroutines; Parallelise: 0..200 arguments with 0..3 failing; " +
 		"store: 2..16 goroutines mixing Register and Cancel. non-trivial = timeout path, an error, or a concurrent history; distinct = scenario text.")
 	drv, err := hx.StartDriver(o.Driver)
@@ -223,6 +223,82 @@ func concMain(args []string) {
 				if out != want {
 					rep.Fail(hx.Failure{Kind: "impl-violates-property", Key: "context-runner:" + variant, Case: canon, Expected: want, Observed: out})
 				}
+			}
+		}
+	}
+	// ---- RunActionWithParallelCheck: the action's context ends when the check says no, when the caller cancels,
+	//      and after the action has returned; the action's own result comes back only if its context is still alive
+	for _, sc := range []struct {
+		name             string
+		checkFailsAfter  int // number of successful checks before it answers false (-1: never)
+		cancelParentAt   time.Duration
+		actionLasts      time.Duration
+		actionFails      bool
+		want             string
+	}{
+		{"action-finishes-first:nil", -1, 0, 10 * time.Millisecond, false, "own:nil"},
+		{"action-finishes-first:error", -1, 0, 10 * time.Millisecond, true, "own:err"},
+		{"check-says-no", 2, 0, 400 * time.Millisecond, false, "cancelled"},
+		{"check-says-no-at-once", 0, 0, 400 * time.Millisecond, true, "cancelled"},
+		{"caller-cancels", -1, 15 * time.Millisecond, 400 * time.Millisecond, false, "cancelled"},
+	} {
+		ctx, cancel := context.WithCancel(context.Background())
+		if sc.cancelParentAt > 0 {
+			tm := time.AfterFunc(sc.cancelParentAt, cancel)
+			defer tm.Stop()
+		}
+		var checks int32
+		var actionCtx context.Context
+		var sawDone int32
+		done := make(chan error, 1)
+		go func() {
+			done <- parallelisation.RunActionWithParallelCheck(ctx, func(actx context.Context) error {
+				actionCtx = actx
+				select {
+				case <-actx.Done():
+					atomic.StoreInt32(&sawDone, 1)
+				case <-time.After(sc.actionLasts):
+				}
+				if sc.actionFails {
+					return errAction
+				}
+				return nil
+			}, func(context.Context) bool {
+				n := atomic.AddInt32(&checks, 1)
+				return sc.checkFailsAfter < 0 || int(n) <= sc.checkFailsAfter
+			}, 5*time.Millisecond)
+		}()
+		out := "stuck"
+		select {
+		case err := <-done:
+			switch {
+			case err == nil:
+				out = "own:nil"
+			case errors.Is(err, errAction):
+				out = "own:err"
+			case commonerrors.Any(err, commonerrors.ErrCancelled):
+				out = "cancelled"
+			case commonerrors.Any(err, commonerrors.ErrTimeout):
+				out = "timeout"
+			default:
+				out = "other:" + err.Error()
+			}
+		case <-time.After(2 * time.Second):
+		}
+		cancel()
+		canon := "parallel-check " + sc.name
+		rep.Eval(canon, true)
+		rep.Hist("parallel-check:" + out)
+		if out != sc.want {
+			rep.Fail(hx.Failure{Kind: "impl-violates-property", Key: "parallel-check-runner", Case: canon, Expected: sc.want, Observed: out})
+		}
+		if out != "stuck" {
+			time.Sleep(5 * time.Millisecond)
+			if actionCtx == nil || actionCtx.Err() == nil {
+				rep.Fail(hx.Failure{Kind: "impl-violates-property", Key: "parallel-check-runner:action-context-left-alive", Case: canon, Expected: "the context handed to the action is done once the runner has returned", Observed: "still alive"})
+			}
+			if sc.want == "cancelled" && atomic.LoadInt32(&sawDone) == 0 {
+				rep.Fail(hx.Failure{Kind: "impl-violates-property", Key: "parallel-check-runner:stop-signal-not-delivered", Case: canon, Expected: "the action sees its context end", Observed: "the action ran to its own end"})
 			}
 		}
 	}
